@@ -182,6 +182,25 @@ impl OptChainVisitor<'_> {
     }
 }
 
+impl OptChainVisitor<'_> {
+    /// continues with the callee / object the given link of the chain is applied to
+    fn visit_mut_next_link(&mut self, expr: &mut Expr) {
+        match expr {
+            Expr::OptChain(opt_chain_expr) => match &mut *opt_chain_expr.base {
+                OptChainBase::Call(call_expr) => call_expr.callee.visit_mut_with(self),
+                OptChainBase::Member(member_expr) => member_expr.obj.visit_mut_with(self),
+            },
+            Expr::Call(call_expr) => {
+                if let Callee::Expr(callee) = &mut call_expr.callee {
+                    callee.visit_mut_with(self)
+                }
+            }
+            Expr::Member(member_expr) => member_expr.obj.visit_mut_with(self),
+            _ => {}
+        }
+    }
+}
+
 impl Visit for OptChainVisitor<'_> {}
 
 impl VisitMut for OptChainVisitor<'_> {
@@ -236,12 +255,13 @@ impl VisitMut for OptChainVisitor<'_> {
                     }
                 }
 
-                expr.visit_mut_children_with(self);
+                self.visit_mut_next_link(expr);
             }
 
-            _ => {
-                expr.visit_mut_children_with(self);
-            }
+            // only the links of the chain itself are inspected: the expression the chain starts from,
+            // call arguments and computed keys are evaluated where they are (an optional chain nested in
+            // them, or in a function passed as argument, gets its own guard when it is visited)
+            _ => {}
         };
     }
 }
